@@ -31,6 +31,8 @@ class CallMixin:
             key = ast.unparse(fn)
             if key in lc:
                 args, kwargs = self.eval_args(node, st)
+                if isinstance(fn, ast.Attribute) and "self" in lc[key].params:
+                    args = [self.eval(fn.value, st)] + args
                 return self.apply_contract(lc[key], args, kwargs, st, node, label=key)
         # method call ---------------------------------------------------------
         if isinstance(fn, ast.Attribute):
@@ -243,7 +245,7 @@ class CallMixin:
             raise Unsupported("range step")
         zero = z3.is_int_value(lo) and lo.as_long() == 0
         n = z3.If(hi > 0, hi, 0) if zero else z3.If(hi > lo, hi - lo, 0)
-        return Sym("pyobj", None, None, ("iterview", IterView(n, (lambda k, st_: S_int(k)) if zero else (lambda k, st_: S_int(lo + k)), None, Spec("int"))))
+        return Sym("pyobj", None, None, ("iterview", IterView(n, (lambda k, st_: S_int(k)) if zero else (lambda k, st_: S_int(lo + k)), None, Spec("int"), rng=(lo, hi))))
 
     def b_reversed(self, node, st):
         view = self.iter_view(self.eval(node.args[0], st), st, node)
@@ -421,6 +423,11 @@ class CallMixin:
                     c = self.reg.contracts.get(q)
             if c is None:
                 c = self.reg.methods.get(meth)
+            if c is None:
+                # a method name with exactly one implementation under contract: static dispatch by name
+                cands = [cc for q, cc in self.reg.contracts.items() if q.endswith("." + meth) and q.split(".")[-2][:1].isupper()]
+                if len(cands) == 1:
+                    c = cands[0]
             if c is not None:
                 args, kwargs = self.eval_args(node, st)
                 return self.apply_contract(c, [base] + args, kwargs, st, node, label=f".{meth}")
